@@ -39,6 +39,14 @@ GUARDED = {"pwd", "cwd", "cdup", "mkd", "rmd", "dele", "rnfr", "rnto", "mlst", "
            "pasv", "epsv"}
 
 
+def extra_probes():
+    """verbs in the server's command table beyond the 25 known ones (a later version may have added some): probed like
+    every other verb - nothing is served and the backend is not touched before a completed login"""
+    import aioftp
+    extra = sorted(set(aioftp.Server([aioftp.User()]).commands_mapping) - set(M.KNOWN_VERBS))
+    return [f"{v.upper()} /g" for v in extra] + [v.upper() for v in extra]
+
+
 def spellings(line):
     verb, sp, arg = line.partition(" ")
     if line.startswith("@"):
@@ -77,7 +85,7 @@ def run_hist(table, hist, probe=None):
             verb = line.partition(" ")[0].lower()
             if not logged_before and verb not in ("user", "pass"):
                 codes = obs["codes"]
-                if verb in GUARDED and any(c[:1] in "123" for c in codes):
+                if (verb in GUARDED or verb not in M.KNOWN_VERBS) and any(c[:1] in "123" for c in codes):
                     problems.append({"kind": "served-before-login", "line": line, "codes": codes, "history": steps[:k + 1]})
                 if spy.count != calls_before:
                     problems.append({"kind": "backend-touched-before-login", "line": line,
@@ -310,7 +318,7 @@ def bfs(table, depth):
         frontier = nxt
     total.counters[f"{table}_distinct_states"] = len(seen)
     # from every state every verb, in every spelling
-    items = [(table, h, sp) for h in states for pr in PROBES for sp in spellings(pr)]
+    items = [(table, h, sp) for h in states for pr in PROBES + extra_probes() for sp in spellings(pr)]
     for part, key, dead in report.pmap(expand, items):
         total.merge(part)
     total.counters[f"{table}_probes"] = len(items)
